@@ -3441,7 +3441,14 @@ fn tyvar_of_decl(
         // TODO: struct could be used to access a member function, maybe if the member function is passed as an argument! Maybe shouldn't use name of struct as constructor anymore
         Declaration::Namespace(_, _)
         | Declaration::Enum(_)
-        | Declaration::BuiltinType(BuiltinType::Array) => None,
+        | Declaration::BuiltinType(BuiltinType::Array) => {
+            // these have members but are not values themselves (`let x: int = Color`)
+            ctx.errors.push(Error::GenericWithNode {
+                msg: "This name does not refer to a value".to_string(),
+                node: expr.node(),
+            });
+            None
+        }
         Declaration::Var(node) => {
             let tyvar = TypeVar::from_node(ctx, node.clone());
             Some(tyvar)
